@@ -211,3 +211,76 @@ WITNESSES = [
     # cyclic
     {"prods": [("S", ("A",)), ("A", ("S",)), ("A", ("a",))], "terms": [("a", "str", "a")]},
 ]
+
+
+def sentences(g, maxlen=6, limit=400, max_forms=20000):
+    """Terminal-text sentences of g up to maxlen tokens, shortest first (breadth-first leftmost derivation)."""
+    prods = g["prods"]
+    tmap = {t[0]: t[2] for t in g["terms"]}
+    nts = {p[0] for p in prods}
+    # minimal yield length per nonterminal (to prune)
+    minlen = {n: None for n in nts}
+    ch = True
+    while ch:
+        ch = False
+        for lhs, rhs in prods:
+            if all((s not in nts) or minlen[s] is not None for s in rhs):
+                v = sum(1 if s not in nts else minlen[s] for s in rhs)
+                if minlen[lhs] is None or v < minlen[lhs]:
+                    minlen[lhs] = v
+                    ch = True
+    start = prods[0][0]
+    out, seen, done = [], set(), set()
+    frontier = [(start,)]
+    forms = 0
+    while frontier and len(out) < limit and forms < max_forms:
+        nxt = []
+        for form in frontier:
+            forms += 1
+            i = next((k for k, s in enumerate(form) if s in nts), None)
+            if i is None:
+                if form not in done:
+                    done.add(form)
+                    out.append([tmap[s] for s in form])
+                continue
+            for lhs, rhs in prods:
+                if lhs != form[i]:
+                    continue
+                new = form[:i] + tuple(rhs) + form[i + 1:]
+                need = sum(1 if s not in nts else (minlen[s] or 0) for s in new)
+                if need <= maxlen and len(new) <= maxlen + 4 and new not in seen:
+                    seen.add(new)
+                    nxt.append(new)
+        frontier = nxt
+    out.sort(key=lambda w: (len(w), w))
+    return out[:limit]
+
+
+def directed_inputs(g, rng, n_all=3, maxlen=6, n_sent=14, n_mut=10):
+    """all token strings <= n_all, plus sentences up to maxlen and single-edit corruptions of them (deterministic given rng)"""
+    alpha = [t[2] for t in g["terms"]]
+    words = [w for w in token_strings(alpha, n_all)]
+    sents = sentences(g, maxlen=maxlen, limit=200)
+    longer = [s for s in sents if len(s) > n_all]
+    pick = longer if len(longer) <= n_sent else rng.sample(longer, n_sent)
+    words += pick
+    for s in (pick[:n_mut] if pick else sents[:n_mut]):
+        if not s:
+            continue
+        k = rng.randrange(len(s))
+        op = rng.choice(["del", "sub", "ins"])
+        m = list(s)
+        if op == "del":
+            del m[k]
+        elif op == "sub":
+            m[k] = rng.choice(alpha)
+        else:
+            m.insert(k, rng.choice(alpha))
+        words.append(m)
+    seen, out = set(), []
+    for w in words:
+        t = tuple(w)
+        if t not in seen:
+            seen.add(t)
+            out.append(list(w))
+    return out
